@@ -122,13 +122,17 @@ static unsigned long hashes[8][2];
 static void worker_hash(void *arg)
 {
 	int me = (int)(intptr_t)arg;
+	/* variant 3: the first key ever hashed is the empty string, other keys follow */
+	const char *k0 = variant == 3 ? "" : "k";
 	struct json_object *o = json_object_new_object();
-	json_object_object_add(o, "k", json_object_new_int(me));
-	hashes[me][0] = lh_get_hash(json_object_get_object(o), "k");
+	json_object_object_add(o, k0, json_object_new_int(me));
+	hashes[me][0] = lh_get_hash(json_object_get_object(o), k0);
+	if (variant == 3)
+		json_object_object_add(o, "k", json_object_new_int(-me));
 	struct json_object *v = NULL;
-	if (!json_object_object_get_ex(o, "k", &v) || json_object_get_int(v) != me)
+	if (!json_object_object_get_ex(o, k0, &v) || json_object_get_int(v) != me)
 		oracle_fail("a thread does not find the key it just added to its own object");
-	hashes[me][1] = lh_get_hash(json_object_get_object(o), "k");
+	hashes[me][1] = lh_get_hash(json_object_get_object(o), k0);
 	json_object_put(o);
 }
 static char results[8][128];
@@ -236,7 +240,7 @@ static void run_body(int body, int nthr, int var)
 			json_global_set_string_hash(JSON_C_STR_HASH_DFLT);
 		}
 		struct lh_table *t = lh_kchar_table_new(4, NULL);
-		unsigned long h = lh_get_hash(t, "k");
+		unsigned long h = lh_get_hash(t, var == 3 ? "" : "k");
 		lh_table_free(t);
 		for (int i = 1; i <= nthr; i++)
 			if (hashes[i][0] != h || hashes[i][1] != h)
@@ -280,7 +284,7 @@ struct cfg
 static const struct cfg CFGS[] = {
     {1, 2, 0, 2, 5}, {1, 2, 1, 2, 5}, {1, 3, 0, 1, 4}, {2, 2, 0, 2, 5}, {2, 2, 1, 2, 5}, {2, 3, 0, 1, 4}, {3, 2, 0, 2, 5},
     {3, 3, 0, 1, 3}, {4, 2, 0, 2, 5}, {4, 3, 0, 1, 4}, {5, 2, 0, 1, 3}, {1, 3, 1, 1, 3}, {2, 3, 1, 1, 3}, {3, 2, 1, 2, 4},
-    {4, 2, 1, 1, 2}, {5, 2, 1, 1, 2}, {4, 2, 2, 2, 3},
+    {4, 2, 1, 1, 2}, {5, 2, 1, 1, 2}, {4, 2, 2, 2, 3}, {4, 2, 3, 1, 2},
 };
 #define NCFG (int)(sizeof CFGS / sizeof CFGS[0])
 
